@@ -598,6 +598,24 @@ def check_c20(tier, seed, res, work):
             res.tie_broken.append('correspondence (bundle): model consume differs from downloadRuleset (trial %d)' % trial)
         if trial < 2:
             samples.append(dict(files=[nme for nme, _ in entries], decoys=[nme for nme, _ in decoys]))
+        # the download breaks off (read error) after part of the bundle has arrived and is tried again: what the hosted
+        # load finally yields is still the directory's rules, each once
+        if n >= 1 and trial % 2 == 1:
+            size = os.path.getsize(bundle)
+            for cut in sorted(set([0, 1, size // 10, size // 3, size // 2, (2 * size) // 3, size - 2, size - 1] + [m_.end() for m_ in re.finditer(rb'\},\s*\{', open(bundle, 'rb').read())][:6])):
+                if cut < 0 or cut >= size:
+                    continue
+                rc, o, e = run([B + '/harness', 'bundle-load-faulty', bundle, root + '/faulty.out', str(cut)], timeout=120, env=dict(ENV, HOME=work))
+                fo = dict((l.split(' ')[0], l.rstrip('\n').split(' ')[1:]) for l in open(root + '/faulty.out'))
+                stats['interrupted_downloads'] += 1
+                if rc != 0 or fo.get('HOSTED', ['x'])[0] != 'ok':
+                    res.violations.append(dict(replay, what='after a download that broke off at byte %d of %d and was tried again, the hosted load fails' % (cut, size), detail=str(fo)[:300] + e.decode(errors='replace')[-200:]))
+                    break
+                h2 = sorted(re.findall(r'x[0-9a-f]*', fo['HOSTED'][1]))
+                if h2 != local:
+                    res.violations.append(dict(replay, what='after a download that broke off at byte %d of %d and was tried again, the rules loaded from the bundle differ from the directory\'s (%d vs %d rules)' % (cut, size, len(h2), len(local)),
+                                               how='serve the bundle through a transport whose first response ends with a read error after that many bytes; call the hosted load again when it reports an error'))
+                    break
         # packaging AGAIN after the directory changed, with a bundle of the earlier state still in place: a rule edited
         # in place with its modification time preserved (cp -p, rsync -t, archive extraction), an older revision
         # restored with an old time stamp, a rule removed, one added with an old time stamp
